@@ -90,7 +90,8 @@ inductive CEv where
   | qlen (lt4 : Bool)                -- `work_queue.len() < 4`
   | push (seq : Nat)                 -- push_back done
   | ldActive (a : Nat)               -- `active_workers.load`
-  | spawn (a q : Nat) (d : Bool)     -- `work_queue.len()` read, decision taken
+  | spawn (a q : Nat) (d : Bool)     -- `work_queue.len()` read (`d` is filled in by `resolveSpawn`)
+  | spawned                          -- inside the `if`: a worker thread is being spawned
   | spawnAtLoad (a : Nat) (d : Bool) -- (placed by `placeSpawn`)
   | spawnAtLen (q : Nat) (d : Bool)  -- (placed by `placeSpawn`)
   | src (k : SrcObs)                 -- result of `read_and_dispatch_chunk` / `dispatch_next_member`
@@ -131,6 +132,23 @@ def markStutter : Bool → List Ev → List Ev
   | true, .c e :: r => .obs e :: markStutter true r
   | b, e :: r => e :: markStutter b r
 
+/-- is the next coordinator event `spawned`? -/
+def spawnedNext : List Ev → Bool
+  | [] => false
+  | .c .spawned :: _ => true
+  | .c _ :: _ => false
+  | .call :: _ => false
+  | .ret _ :: _ => false
+  | .drop :: _ => false
+  | _ :: r => spawnedNext r
+
+/-- the decision of a spawn check is whether the code entered the `if` (`spawned` follows) -/
+def resolveSpawn : List Ev → List Ev
+  | [] => []
+  | .c (.spawn a q _) :: r => .c (.spawn a q (spawnedNext r)) :: resolveSpawn r
+  | .c .spawned :: r => .c .nop :: resolveSpawn r
+  | e :: r => e :: resolveSpawn r
+
 /-- the decision that belongs to an `ldActive` marker -/
 def spawnAhead : List Ev → Option (Nat × Nat × Bool)
   | [] => none
@@ -149,7 +167,7 @@ def placeSpawn : Bool → List Ev → List Ev
     (if early then .c .nop else .c (.spawnAtLen q d)) :: placeSpawn false r
   | b, e :: r => e :: placeSpawn b r
 
-def prepare (evs : List Ev) : List Ev := markStutter false (placeSpawn false evs)
+def prepare (evs : List Ev) : List Ev := markStutter false (placeSpawn false (resolveSpawn evs))
 
 /-! ## validator -/
 
@@ -229,6 +247,7 @@ def onC {cfg : Cfg} (v : VS cfg) : CEv → R cfg
     pure { v2 with pushed := true }
   | .ldActive _ => .ok v
   | .nop => .ok v
+  | .spawned => .error "spawn outside a spawn check"
   | .spawn _ q d => onSpawn v (fun s => s.queue.length == q) d
   | .spawnAtLoad a d => onSpawn { v with nEarly := v.nEarly + 1 } (fun s => s.active == a) d
   | .spawnAtLen q d => onSpawn v (fun s => s.queue.length == q) d
